@@ -172,6 +172,17 @@ def run(ctx: Any, prog: Program) -> None:
                             and removes[0] in [c for c in ast.walk(n.body[0])]
                         ctx.check('C07.I3', ok, vm, n, f'the {field} arm of Entity.{name} must start by removing the old {idx} entry (found {len(removes)} removals)',
                                   text=f'{name}: {field} arm removes old entry first')
+        # function-wide: for each index, the first add comes after the first removal (whatever the arm tests look like).  Adding first and
+        # removing the old entry later discards the entity again when old and new key coincide (a blank targetname is None both times).
+        for idx in INDEXES:
+            adds_ = [c for c in walk_no_nested(fn) if isinstance(c, ast.Call) and isinstance(c.func, ast.Attribute) and c.func.attr == 'add' and isinstance(c.func.value, ast.Subscript) and index_of(c.func.value.value) == idx]
+            rems_ = [c for c in walk_no_nested(fn) if isinstance(c, ast.Call) and dotted(c.func) == '_remove_copyset' and c.args and index_of(c.args[0]) == idx]
+            if not adds_:
+                continue
+            first_add = min(adds_, key=lambda c: c.lineno)
+            ok = bool(rems_) and min(r.lineno for r in rems_) < first_add.lineno
+            ctx.check('C07.I3', ok, vm, first_add, f'Entity.{name} adds the entity to {idx} (line {first_add.lineno}) before it removed the old {idx} entry' + (f' (line {min(r.lineno for r in rems_)})' if rems_ else ' (never)')
+                      + ': when the old and the new key are the same - a blank targetname is the key None both before and after - the later removal takes the entity out again', text=f'{name}: {idx} removal precedes the add')
     vmf_methods = vm.methods('VMF')
     for name, listop in (('add_ent', 'append'), ('add_ents', 'extend'), ('remove_ent', 'remove')):
         fn = vmf_methods[name]
@@ -381,6 +392,7 @@ def run(ctx: Any, prog: Program) -> None:
 
 
 MUTANTS = [
+    {'id': 'delitem_adds_before_removing', 'file': 'vmf.py', 'find': "        if key == 'targetname':\n            _remove_copyset(self.map.by_target, self['targetname'].casefold() or None, self)\n            if self in self.map.entities or self is self.map.spawn:\n                self.map.by_target[None].add(self)\n", 'replace': "        if key == 'targetname':\n            old_name = self['targetname'].casefold() or None\n            if self in self.map.entities or self is self.map.spawn:\n                self.map.by_target[None].add(self)\n            _remove_copyset(self.map.by_target, old_name, self)\n", 'expect': 'C07.I3'},
     {'id': 'setitem_returns_when_value_unchanged', 'file': 'vmf.py', 'find': "        # TODO: if 'mapversion' is passed and self is self.map.spawn, update version there.\n", 'replace': "        if orig_val == str_val:\n            return\n        # TODO: if 'mapversion' is passed and self is self.map.spawn, update version there.\n", 'expect': 'C07.I3'},
     {'id': 'search_classname_only_if_no_targetname', 'file': 'vmf.py', 'find': "            if name in list(self.by_class):\n                yield from self.by_class[name]", 'replace': "            yield from (self.by_target.get(name) or self.by_class.get(name) or ())", 'expect': 'C07.I9'},
     {'id': 'search_drops_classname_lookup', 'file': 'vmf.py', 'find': "            if name in list(self.by_class):\n                yield from self.by_class[name]", 'replace': "            pass", 'expect': 'C07.I9'},
